@@ -134,6 +134,12 @@ def lean_prop(name: str, params: str, body: str, doc: str) -> str:
 #      positive, and of `a <op> b` / `b <mirrored op> a` (pure operands) the one whose first operand has the smaller text
 #      (locals by position) is used; a local that only ever holds a `Gap` or None is tested with `is not None`;
 #      `self.m(k=x)` is `self.m(x)` for a method of the same class (or of a known peer object such as `self._buffer`);
+#   c''. `a == b or a <= b` is `a <= b`, `a == b and a <= b` is `a == b` (the same pure operands; `==` ⇒ `<=`, `>=`;
+#      `<` ⇒ `<=`, `!=`; `>` ⇒ `>=`, `!=`); `x[0:e]` is `x[:e]`; of a chain `t0 ± t1 ± …` the leading run of terms that are
+#      certainly ints (literals, `len(…)`, `round(x)`, methods annotated `-> int`, parameters annotated `int`, locals
+#      only ever bound to such, `+ - * // %` / `min` / `max` of those) is sorted (calls, locals by position, constants;
+#      exact: `int` addition is associative and commutative, and the run is a sub-expression); `v += E` on such an int
+#      local with a non-constant `E` is `v = v + E`;
 #   d. `map(lambda x: E, it)` / `filter(lambda x: P, it)` are generator expressions, a generator over `enumerate(…)`
 #      unpacks the pair, comprehension / lambda variables are renamed apart; the loops `acc = 0; for …: acc += E`,
 #      `for …: if P: return True` + `return False` (and the `all` dual), `for …: if P: return V` + `return D`,
@@ -151,10 +157,15 @@ def lean_prop(name: str, params: str, body: str, doc: str) -> str:
 #      equal last statements after an `if` that no path leaves; of two branches the one that always ends comes
 #      first (of two that end, a lone `raise`, then a lone `return`), otherwise the test is made positive; `if A: (if
 #      B: X else: Y) else: Y` is `if A and B: X else: Y` (and the `or` dual), `if A and B: X elif A: Y else: R` is
-#      `if A: (if B: X else: Y) else: R`; boolean functions: `if C: return True else: return E` is `return C or E`,
+#      `if A: (if B: X else: Y) else: R` (also with `if not A: R else: Y` inside) and, with a longer common prefix `P`
+#      of pure conjuncts, `if P and B: X elif P and C: Y else: R` is `if P: (if B: X elif C: Y else: R) else: R`;
+#      `if C: v = E1 else: v = E2` (a local; `C`, `E1`, `E2` boolean and pure) is `v = C and E1 or not C and E2`;
+#      boolean functions: `if C: return True else: return E` is `return C or E`,
 #      …; the `else` after a branch that ends is un-nested; a trailing `continue` / bare `return` is dropped;
 #      `v = E; return v` is `return E`;
-#   h. consecutive `if`s on the same local variable are merged when the first does not assign it; after `v = c[i]`
+#   h. consecutive `if`s on the same local variable are merged when the first does not assign it — also when the
+#      local is one conjunct of the tests with opposite signs and whatever precedes it in them is total:
+#      `if not v and P: X` + `if Q and v: Y` is `if v: (if Q: Y) else: (if P: X)`; after `v = c[i]`
 #      (an element of a container), `c[i]` is written `v` up to the first statement that could change `c` or `v`;
 #   i. `v = E1; …; v = E2` in one block: the first definition gets a name of its own; then a local defined by a pure
 #      expression is replaced by that expression at its uses when (1) it is the only definition reaching them (the
@@ -526,21 +537,41 @@ def _merge_ifs(stmts: list[ast.stmt]) -> list[ast.stmt]:
                 and not _mentions([s.test, s.body[0].value], {prev.targets[0].id})):
             out[-1] = ast.If(test=s.test, body=s.body, orelse=[prev])
             continue
-        if isinstance(prev, ast.If) and isinstance(s, ast.If) and not prev.orelse:
+        if isinstance(prev, ast.If) and isinstance(s, ast.If) and not prev.orelse \
+                and not any(isinstance(n, ast.NamedExpr) for t in (prev.test, s.test) for n in ast.walk(t)):
             def var(t: ast.expr):
                 if isinstance(t, ast.Name):
                     return t.id, True
                 if isinstance(t, ast.UnaryOp) and isinstance(t.op, ast.Not) and isinstance(t.operand, ast.Name):
                     return t.operand.id, False
                 return None
-            a, b = var(prev.test), var(s.test)
-            if a and b and a[0] == b[0] and a[0] not in _stores(prev.body) and not _always_ends(prev.body):
+
+            def literals(t: ast.expr):
+                """(name, polarity, the other conjuncts) for the literals of the conjunction `t` that decide it before
+                anything that could raise is evaluated."""
+                vals = t.values if isinstance(t, ast.BoolOp) and isinstance(t.op, ast.And) else [t]
+                for k, v in enumerate(vals):
+                    lit = var(v)
+                    if lit and all(_total(x) for x in vals[:k]):
+                        yield lit[0], lit[1], vals[:k] + vals[k + 1:]
+
+            def guarded(rest: list[ast.expr], body: list[ast.stmt], orelse: list[ast.stmt]) -> list[ast.stmt]:
+                if not rest:
+                    return body
+                test = rest[0] if len(rest) == 1 else ast.BoolOp(op=ast.And(), values=rest)
+                return [ast.If(test=test, body=body, orelse=orelse)]
+
+            pair = next(((a, b) for a in literals(prev.test) for b in literals(s.test)
+                         if a[0] == b[0] and (a[1] != b[1] or not (a[2] or b[2]))), None)
+            if pair and pair[0][0] not in _stores(prev.body) and not _always_ends(prev.body):
+                a, b = pair
                 name = _name(a[0])
-                x, y, z = prev.body, s.body, s.orelse
+                # (with `P = T and P'`, `Q = [¬]T and Q'`; the same local is tested, and nothing in between changes it)
+                x, z = guarded(a[2], prev.body, []), s.orelse
                 if a[1] == b[1]:            # if T: X ; if T: Y else: Z   ->  if T: X; Y  else: Z
-                    then, els = x + y, z
-                else:                        # if T: X ; if ¬T: Y else: Z  ->  if T: X; Z  else: Y
-                    then, els = x + z, y
+                    then, els = x + s.body, z
+                else:                        # if P: X ; if Q: Y else: Z  ->  if T: (if P': X); Z  else: (if Q': Y else: Z)
+                    then, els = x + copy.deepcopy(z), guarded(b[2], s.body, z)
                 if a[1]:
                     merged = ast.If(test=name, body=then, orelse=els)
                 elif els:
@@ -632,12 +663,70 @@ def _load(t: ast.expr) -> ast.expr:
     return t
 
 
+def _certainly_int(e: ast.expr, ints: set[str], int_calls: set[str]) -> bool:
+    """An `int` whatever the inputs are: literals, `len(…)`, `round(x)`, the methods annotated `-> int`, int locals, and
+    `+ - * // %`, unary minus, `min` / `max` of those."""
+    if isinstance(e, ast.Constant):
+        return type(e.value) is int
+    if isinstance(e, ast.Name):
+        return e.id in ints
+    if isinstance(e, ast.BinOp):
+        return isinstance(e.op, (ast.Add, ast.Sub, ast.Mult, ast.FloorDiv, ast.Mod)) \
+            and _certainly_int(e.left, ints, int_calls) and _certainly_int(e.right, ints, int_calls)
+    if isinstance(e, ast.UnaryOp):
+        return isinstance(e.op, ast.USub) and _certainly_int(e.operand, ints, int_calls)
+    if isinstance(e, ast.Call):
+        f = _call_name(e)
+        if f == "len" or f in int_calls:
+            return True
+        if f == "round":
+            return len(e.args) == 1 and not e.keywords
+        if f in ("min", "max"):
+            return len(e.args) >= 2 and not e.keywords and all(_certainly_int(a, ints, int_calls) for a in e.args)
+    return False
+
+
+def _int_locals(fn: ast.FunctionDef, int_params: set[str], int_calls: set[str]) -> set[str]:
+    """The locals all of whose bindings are certainly ints (greatest fixpoint)."""
+    binds: dict[str, list[ast.expr | None]] = {}
+    for n in ast.walk(fn):
+        if isinstance(n, ast.Assign):
+            for t in n.targets:
+                if isinstance(t, ast.Name):
+                    binds.setdefault(t.id, []).append(n.value)
+                else:
+                    for a in ast.walk(t):
+                        if isinstance(a, ast.Name) and isinstance(a.ctx, ast.Store):
+                            binds.setdefault(a.id, []).append(None)
+        elif isinstance(n, ast.AugAssign) and isinstance(n.target, ast.Name):
+            ok = isinstance(n.op, (ast.Add, ast.Sub, ast.Mult, ast.FloorDiv, ast.Mod))
+            binds.setdefault(n.target.id, []).append(n.value if ok else None)
+        elif isinstance(n, (ast.For, ast.comprehension, ast.NamedExpr, ast.withitem, ast.ExceptHandler)):
+            tgt = getattr(n, "target", None) or getattr(n, "optional_vars", None)
+            if isinstance(tgt, ast.AST):
+                for a in ast.walk(tgt):
+                    if isinstance(a, ast.Name):
+                        binds.setdefault(a.id, []).append(None)
+            elif isinstance(n, ast.ExceptHandler) and n.name:
+                binds.setdefault(n.name, []).append(None)
+    params = {a.arg for a in fn.args.args + fn.args.kwonlyargs + fn.args.posonlyargs}
+    ints = {v for v in binds if v not in params} | {p for p in int_params if p not in binds}
+    while True:
+        bad = {v for v in ints if v in binds and any(x is None or not _certainly_int(x, ints, int_calls) for x in binds[v])}
+        if not bad:
+            return ints
+        ints -= bad
+
+
 class _Rewrite(ast.NodeTransformer):
     """Steps a–d that look at one node."""
 
-    def __init__(self, positions: dict[str, str] | None = None, gap_locals: set[str] | None = None):
+    def __init__(self, positions: dict[str, str] | None = None, gap_locals: set[str] | None = None,
+                 ints: set[str] | None = None, int_calls: set[str] | None = None):
         self.positions = positions or {}       # local name -> `_p<i>` / `_v<j>` (position of its first binding)
         self.gap_locals = gap_locals or set()  # locals that only ever hold a `Gap` object or None
+        self.ints = ints or set()              # locals that only ever hold an `int`
+        self.int_calls = int_calls or set()    # `self.m` for the methods annotated `-> int`
 
     # ---- a
     def visit_Expr(self, node):  # noqa: N802
@@ -827,7 +916,84 @@ class _Rewrite(ast.NodeTransformer):
         for v in node.values:
             vals += v.values if isinstance(v, ast.BoolOp) and type(v.op) is type(node.op) else [v]
         node.values = vals
+        # `a == b or a <= b` is `a <= b`, `a == b and a <= b` is `a == b` (same pure operands)
+        def cmp(v: ast.expr):
+            if isinstance(v, ast.Compare) and len(v.ops) == 1 and type(v.ops[0]) in self.IMPLIES \
+                    and not _reads(v, set()).impure:
+                return type(v.ops[0]), _dump(v.left), _dump(v.comparators[0])
+            return None
+        keys = [cmp(v) for v in vals]
+        drop: set[int] = set()
+        for i, a in enumerate(keys):
+            for j, b in enumerate(keys):
+                if a and b and i != j and a[1:] == b[1:] and b[0] in self.IMPLIES[a[0]] and i not in drop and j not in drop:
+                    drop.add(i if isinstance(node.op, ast.Or) else j)    # a ⇒ b
+        if drop:
+            node.values = [v for i, v in enumerate(vals) if i not in drop]
+            if len(node.values) == 1:
+                return node.values[0]
         return node
+
+    IMPLIES = {ast.Eq: (ast.LtE, ast.GtE), ast.Lt: (ast.LtE, ast.NotEq), ast.Gt: (ast.GtE, ast.NotEq),
+               ast.LtE: (), ast.GtE: (), ast.NotEq: ()}
+
+    def visit_Slice(self, node):  # noqa: N802
+        self.generic_visit(node)
+        if node.step is None and isinstance(node.lower, ast.Constant) and node.lower.value == 0 \
+                and type(node.lower.value) is int:
+            node.lower = None                  # `x[0:e]` is `x[:e]` (sequences)
+        return node
+
+    def is_int(self, e: ast.expr) -> bool:
+        return _certainly_int(e, self.ints, self.int_calls)
+
+    def visit_AugAssign(self, node):  # noqa: N802
+        self.generic_visit(node)
+        # `v += E` on an int local is `v = v + E` (no object is changed in place); `v += <constant>` stays (a counter)
+        if (isinstance(node.target, ast.Name) and node.target.id in self.ints and isinstance(node.op, (ast.Add, ast.Sub))
+                and not isinstance(node.value, ast.Constant) and self.is_int(node.value)):
+            return self.visit(ast.Assign(targets=[_name(node.target.id, ast.Store())],
+                                         value=ast.BinOp(left=_name(node.target.id), op=node.op, right=node.value)))
+        return node
+
+    def visit_BinOp(self, node):  # noqa: N802
+        self.generic_visit(node)
+        if not isinstance(node.op, (ast.Add, ast.Sub)):
+            return node
+        # a sum of ints is written in one order: the terms of the leading run of certainly-int terms of a chain
+        # `t0 ± t1 ± …` (a sub-expression: the chain associates to the left) sorted — calls, locals by position, constants
+        terms: list[tuple[bool, ast.expr]] = []
+
+        def flatten(e: ast.expr, plus: bool, top: bool) -> None:
+            if isinstance(e, ast.BinOp) and isinstance(e.op, (ast.Add, ast.Sub)) and (top or self.is_int(e)):
+                flatten(e.left, plus, top)
+                flatten(e.right, plus == isinstance(e.op, ast.Add), False)
+            else:
+                terms.append((plus, e))
+
+        flatten(node, True, True)
+        k = 0
+        while k < len(terms) and self.is_int(terms[k][1]) and not _reads(terms[k][1], set()).impure:
+            k += 1
+        if k < 2:
+            return node
+
+        def key(t: tuple[bool, ast.expr]):
+            cp = copy.deepcopy(t[1])
+            for n in ast.walk(cp):
+                if isinstance(n, ast.Name) and n.id in self.positions:
+                    n.id = self.positions[n.id]
+            return (isinstance(t[1], ast.Constant), isinstance(t[1], ast.Name), ast.unparse(ast.fix_missing_locations(cp)))
+
+        head = sorted(terms[:k], key=key)
+        first = next((t for t in head if t[0]), None)
+        if first is None:
+            return node
+        head.remove(first)
+        acc: ast.expr = first[1]
+        for plus, t in head + terms[k:]:
+            acc = ast.BinOp(left=acc, op=ast.Add() if plus else ast.Sub(), right=t)
+        return acc
 
     # ---- d
     def visit_Call(self, node):  # noqa: N802
@@ -1554,6 +1720,11 @@ def _strip(fn: ast.FunctionDef) -> ast.FunctionDef:
 
 def normalize(fn: ast.FunctionDef, scope: _Scope | None = None, depth: int = 0) -> ast.FunctionDef:
     scope = scope or _Scope(None, None)
+    int_params = {a.arg for a in fn.args.args + fn.args.kwonlyargs
+                  if isinstance(a.annotation, ast.Name) and a.annotation.id == "int"}
+    int_calls = {f"self.{m.name}" for m in (scope.cls.body if scope.cls is not None else [])
+                 if isinstance(m, ast.FunctionDef) and isinstance(m.returns, ast.Name) and m.returns.id == "int"
+                 and not any(ast.unparse(d) == "property" for d in m.decorator_list)}
     fn = _strip(fn)
     params = [a.arg for a in fn.args.args + fn.args.kwonlyargs if a.arg != "self"]
 
@@ -1758,12 +1929,21 @@ def normalize(fn: ast.FunctionDef, scope: _Scope | None = None, depth: int = 0) 
                         inner = as_ifelse(s.orelse)
                         if inner is not None:
                             t, y, r_ = inner
+                            if not (isinstance(t, ast.BoolOp) and isinstance(t.op, ast.And)) \
+                                    and _dump(negate(t)) == _dump(s.test.values[0]) and y and r_:
+                                t, y, r_ = negate(t), r_, y      # … else: (if ¬A: R else: Y)
                             tv = t.values if isinstance(t, ast.BoolOp) and isinstance(t.op, ast.And) else [t]
-                            k = len(tv)
-                            if (k < len(s.test.values) and _dump(tv) == _dump(s.test.values[:k])
-                                    and all(not _reads(x, scope.final).impure for x in tv)):
+                            k = 0
+                            while k < min(len(tv), len(s.test.values) - 1) and _dump(tv[k]) == _dump(s.test.values[k]):
+                                k += 1
+                            if k and all(not _reads(x, scope.final).impure for x in tv[:k]):
                                 restv = s.test.values[k:]
                                 b = restv[0] if len(restv) == 1 else ast.BoolOp(op=ast.And(), values=restv)
+                                if k < len(tv):
+                                    # `if P and B: X else: (if P and C: Y else: R)` == `if P: (if B: X else: (if C: Y else: R)) else: R`
+                                    c_ = tv[k] if len(tv) == k + 1 else ast.BoolOp(op=ast.And(), values=tv[k:])
+                                    y = [ast.If(test=c_, body=y, orelse=copy.deepcopy(r_))]
+                                    t = tv[0] if k == 1 else ast.BoolOp(op=ast.And(), values=tv[:k])
                                 nested = block([ast.If(test=b, body=s.body, orelse=y)], sub, key, known, stable)
                                 s.test, s.body, s.orelse, changed = t, nested, r_, True
                                 continue
@@ -1783,6 +1963,22 @@ def normalize(fn: ast.FunctionDef, scope: _Scope | None = None, depth: int = 0) 
                                 s.test, s.orelse, changed = conj(ast.Or(), s.test, t), y, True
                             elif _dump(y) == _dump(s.body):      # if A: X else: (if B: Y else: X)
                                 s.test, s.orelse, changed = conj(ast.Or(), s.test, negate(t)), x, True
+                # a boolean local decided by a boolean test:  `if C: v = E1 else: v = E2`  ==  `v = C and E1 or not C and E2`
+                if (len(s.body) == 1 and len(s.orelse) == 1 and all(
+                        isinstance(x, ast.Assign) and len(x.targets) == 1 and isinstance(x.targets[0], ast.Name)
+                        and _is_bool(x.value) and not isinstance(x.value, ast.Constant)
+                        and not _reads(x.value, scope.final).impure for x in (s.body[0], s.orelse[0]))
+                        and s.body[0].targets[0].id == s.orelse[0].targets[0].id
+                        and s.body[0].targets[0].id in local_names() - set(params)
+                        and _is_bool(s.test) and not _reads(s.test, scope.final).impure
+                        and not _mentions([s.test], {s.body[0].targets[0].id})):
+                    val = ast.BoolOp(op=ast.Or(), values=[
+                        conj(ast.And(), s.test, s.body[0].value),
+                        conj(ast.And(), negate(copy.deepcopy(s.test)), s.orelse[0].value)])
+                    stmts = stmts[:i] + [ast.Assign(targets=s.body[0].targets, value=val)] + rest
+                    i += 1
+                    out.append(stmts[i - 1])
+                    continue
                 # boolean functions: `if C: return True else: return E`  ==  `return C or E`  (E boolean), …
                 if s.orelse and _is_bool(s.test):
                     bt, bf = bool_return(s.body), bool_return(s.orelse)
@@ -1874,7 +2070,8 @@ def normalize(fn: ast.FunctionDef, scope: _Scope | None = None, depth: int = 0) 
                         or (isinstance(x, ast.Subscript) and ast.unparse(x.value) in ("self._gaps", "self.gaps"))
                         for x in (v.body, v.orelse))))
                 holds[name] = holds.get(name, True) and ok
-        return _Rewrite(pos, {n for n, ok in holds.items() if ok and n not in params})
+        return _Rewrite(pos, {n for n, ok in holds.items() if ok and n not in params},
+                        _int_locals(fn, int_params, int_calls), int_calls)
 
     rw = rewriter()
     fn.body = [s for s in (rw.visit(s) for s in fn.body) if s is not None]
@@ -2159,6 +2356,21 @@ _DIFFERENT = [
     ("a helper with a side effect called twice",
      "def _h(self):\n    self._n += 1\n    return self._n\ndef f(self):\n    v = self._h()\n    return v + v\n",
      "def _h(self):\n    self._n += 1\n    return self._n\ndef f(self):\n    return self._h() + self._h()\n"),
+    ("two ifs on a flag the first one changes are not one decision",
+     "def f(self, t):\n    found = self._q(t)\n    if not found and t > 0:\n        found = self._a()\n    if len(self._g) > 0 and found:\n        self._b()\n",
+     "def f(self, t):\n    found = self._q(t)\n    if found:\n        if len(self._g) > 0:\n            self._b()\n    elif t > 0:\n        found = self._a()\n"),
+    ("a sum of datetimes / timedeltas is not reordered",
+     "def f(self, a, b):\n    return self._t0 - a + b\n",
+     "def f(self, a, b):\n    return self._t0 + b - a\n"),
+    ("== does not imply <",
+     "def f(self, a, b):\n    return a == b or a < b\n",
+     "def f(self, a, b):\n    return a < b\n"),
+    ("`+=` on a list changes the object, `= … + …` makes a new one",
+     "def f(self, xs):\n    ys = self._g\n    ys += xs\n    return ys\n",
+     "def f(self, xs):\n    ys = self._g\n    ys = ys + xs\n    return ys\n"),
+    ("a boolean local decided by a test with a side effect",
+     "def f(self, a):\n    if self._pop() == a:\n        up = a % 2 != 0\n    else:\n        up = a > 3\n    if up:\n        self._x()\n",
+     "def f(self, a):\n    if (self._pop() == a and a % 2 != 0) or (self._pop() != a and a > 3):\n        self._x()\n"),
 ]
 _SAME = [
     ("guard clauses vs nested ifs",
@@ -2183,6 +2395,20 @@ _SAME = [
      "def f(self, t):\n    i, g = next(filter(lambda e: e[1].contains(t), enumerate(self._gaps)), (0, None))\n    return i, g\n",
      "def f(self, t):\n    idx = 0\n    found = None\n    for k, c in enumerate(self._gaps):\n        if c.contains(t):\n"
      "            idx, found = k, c\n            break\n    return idx, found\n"),
+    ("two ifs with exclusive tests on a flag vs one decision",
+     "def f(self, t):\n    found = self._q(t)\n    if not found and t > self._n + self._p:\n        self._a()\n    if len(self._g) > 0 and found:\n        self._b()\n    self._c()\n",
+     "def f(self, t):\n    found = self._q(t)\n    if found:\n        if len(self._g) > 0:\n            self._b()\n    elif t > self._n + self._p:\n        self._a()\n    self._c()\n"),
+    ("a guard repeated in an elif chain vs a nested decision",
+     "def f(self, a, b):\n    if a.e <= self._o:\n        self._x()\n    elif b is not None and a.s <= b.s and a.e >= b.e:\n        self._y()\n    elif b is not None and a.e >= b.s:\n        self._z()\n    else:\n        self._w()\n",
+     "def f(self, a, b):\n    if a.e <= self._o:\n        self._x()\n    elif b is None:\n        self._w()\n    elif a.s <= b.s and b.e <= a.e:\n        self._y()\n    elif b.s <= a.e:\n        self._z()\n    else:\n        self._w()\n"),
+    ("a rounding test split into nested ifs with a boolean local",
+     "def f(self, r, n):\n    if r != 0 and (self._p / 2 == r and n % 2 != 0 or self._p / 2 < r):\n        n += 1\n    return n * self._p\n",
+     "def f(self, r, n):\n    if r != 0:\n        half = self._p / 2\n        if r == half:\n            up = n % 2 != 0\n        else:\n            up = r > half\n        if up:\n            n += 1\n    return n * self._p\n"),
+    ("a sum of ints in another order, accumulated",
+     "def f(self):\n    s = self.idx(self._a)\n    e = self.idx(self._b)\n    if e < s:\n        return len(self._buf) - s + e + 1 - self._m\n    return e + 1 - s - self._m\n"
+     "def idx(self, t) -> int:\n    return 0\n",
+     "def f(self):\n    s = self.idx(self._a)\n    e = self.idx(self._b)\n    n = e + 1 - s\n    if e < s:\n        n += len(self._buf)\n    return n - self._m\n"
+     "def idx(self, t) -> int:\n    return 0\n"),
 ]
 
 
